@@ -90,6 +90,11 @@ Proof.
       assert (has_rec s d1 = true) by (apply has_rec_In; exists p; exact F2). congruence.
     + intro F. apply in_map_iff in F. destruct F as [[d' p] [F1 F2]]. simpl in F1. subst d'.
       assert (has_rec s d2 = true) by (apply has_rec_In; exists p; exact F2). congruence.
+  - (* Xfer *) assert (G : urecs (fst (xfer s d r k))).
+    { unfold xfer. destruct (negb _); simpl; [exact U |]. destruct (has_rec s d) eqn:Hn; simpl; [apply (urecs_same s); [reflexivity | exact U] |].
+      unfold urecs. simpl. constructor; [| exact U]. intro F. apply in_map_iff in F. destruct F as [[d' p] [F1 F2]]. simpl in F1. subst d'.
+      assert (has_rec s d = true) by (apply has_rec_In; exists p; exact F2). congruence. }
+    destruct (ctype s r) as [[] |]; simpl; try exact U; exact G.
 Qed.
 
 Lemma urecs_fold : forall h s, urecs s -> urecs (fold_left exec h s).
